@@ -413,6 +413,7 @@ Proof.
   - intros H; inversion H; subst; auto.
   - intros H; inversion H; subst; auto.
   - intros H; inversion H; subst; auto.
+  - intros H; inversion H; subst; auto.
 Qed.
 
 Theorem step_store_ok m o m' x : store_ok m -> step m o = Ok (m', x) -> store_ok m'.
